@@ -307,6 +307,27 @@ def run(ctx) -> None:
                 ok = "raise" in oc and any(isinstance(x, ast.Constant) and x.value == "already tracked!" for x in ast.walk(hn.ast))
                 ctx.check("R3", ok, "VCSAPI.add: handler only tolerates hg's 'already tracked!' and re-raises otherwise",
                           "vcs.VCSAPI.add: a failed `add` is swallowed", f"outcomes {sorted(oc)}", loc=fn.loc(hn.ast))
+                # ... and it is tolerated only under that message: every way out of the handler that is not a raise implies the message test
+                apc = PathCond(cfg)
+                hbody = {nid for st_ in ast.walk(hn.ast) for nid in cfg.stmt_nodes.get(id(st_), [])} | {hid}
+                quiet: T.List[BF] = []
+                for nid in hbody & cfg.reachable():
+                    nd = cfg.nodes[nid]
+                    if nd.kind == "stmt" and isinstance(nd.ast, ast.Raise):
+                        continue
+                    for dst, label in cfg.succ[nid]:
+                        if label == ("exc",) or dst in hbody or cfg.nodes[dst].kind == "sysexit":
+                            continue
+                        quiet.append(apc.edge_cond(nid, dst, label))
+                tol = BF.false()
+                for q_ in quiet:
+                    tol = tol | q_
+                tol = tol.drop_unused()
+                msg_atoms = [a_ for a_ in tol.atoms if "already tracked!" in a_]
+                ok2 = len(msg_atoms) == 1 and tol.implies(BF.var(msg_atoms[0]))
+                ctx.check("R3", ok2, "VCSAPI.add: the handler completes quietly only when the message contains 'already tracked!'",
+                          "vcs.VCSAPI.add: a failed `add` is swallowed unless it is hg's 'already tracked!'",
+                          f"the handler returns under `{tol.to_dnf()}`: a failing `git add` / `hg add` is ignored, commit and tag still run and the exit status is 0", loc=fn.loc(hn.ast))
                 continue
             bad_exit = [o for o in oc if o in ("exit:0", "exit:None", "exit:False")]
             ctx.check("R3", "fallthrough" not in oc and not bad_exit,
@@ -502,6 +523,25 @@ def run(ctx) -> None:
             ok_ = any((g.endswith("== ''") and r.implies(~BF.var(g))) or (not g.endswith("== ''") and r.implies(BF.var(g))) for g in guards)
             if not ok_:
                 maybe_empty.append(n)
+    # ... and an enabled push is performed: the remote listing (`show_remotes`) is handed on whenever it is not empty
+    live = []
+    for n in gcfg_.nodes:
+        if n.kind == "stmt" and isinstance(n.ast, ast.Return) and n.ast.value is not None and n.id in gcfg_.reachable():
+            v = shapes.inline(gr, n.ast.value, prog)
+            if isinstance(v, (ast.Constant, ast.Subscript)):
+                continue
+            if isinstance(v, ast.BoolOp) and isinstance(v.op, ast.Or) and isinstance(v.values[-1], ast.Constant) and v.values[-1].value is None:
+                live.append(n)          # `<listing> or None`
+                continue
+            if isinstance(v, ast.IfExp):
+                live.append(n)          # conditional value: judged by the empty-string rule above
+                continue
+            if n not in maybe_empty:
+                live.append(n)
+    ctx.check("R9", bool(live), "get_remote: a non-empty remote listing is returned (an enabled push is performed on a branch without upstream)",
+              "vcs.VCSAPI.get_remote: a listed remote is never returned",
+              "no return hands on the `show_remotes` output under a non-empty test: with push enabled and a remote configured the push step is silently skipped",
+              loc=gr.loc())
     n_remote = 0
     for fq_ in sorted(effects.sites):
         if not fq_.startswith("vcs.VCSAPI."):
